@@ -252,3 +252,8 @@ func ClockStrict() {}
 // ClockConcrete: under the engine time.Now() returns fixed concrete instants 1 ms apart
 // (for code whose results do not depend on the clock; durations only feed statistics).
 func ClockConcrete() {}
+
+// PreemptionBound: under the engine's thread model at most k context switches away from a thread
+// that could have continued are explored per path (switches at blocking points and thread exits
+// are free). 0 = unbounded.
+func PreemptionBound(k int) {}
